@@ -67,6 +67,9 @@ pub fn proto_labels(p: &Program, v: &mut Verdict) {
             if c.n == 0 {
                 v.label("empty_cloud");
             }
+            if c.n > 0 && c.proto.iter().all(|r| r.ty.width() == 0) {
+                v.nt("all_records_zero_width_with_points");
+            }
         }
     }
     if clouds >= 2 {
